@@ -1,1 +1,3 @@
 import DriverLib.Json
+import DriverLib.Tensors
+import DriverLib.Ops
